@@ -99,7 +99,9 @@ def in_scope(prop, rej):
     if prop == 'C17':
         kinds = lambda w: [o.get('kind') for o in w]
         changed = frame_changed(rej)
-        return x['k'] == 'Iter' or x['m'] == 'GetIterator' or any(rej['pre'][i - 1].get('kind') == 'Iter' for i in changed)
+        # also: an object whose iterator disagrees with its other views after the call
+        iterview = any(isinstance(o, dict) and 'iterat' in str(o.get('incoherent', '')) for o in x['w'])
+        return x['k'] == 'Iter' or x['m'] == 'GetIterator' or iterview or any(rej['pre'][i - 1].get('kind') == 'Iter' for i in changed)
     if prop == 'C18':
         selfop = x['self'] != 0 and x['self'] in [a for a in x['args'] if isinstance(a, int)] and x['m'] in (
             'SetValues', 'InsertValues', 'AppendValues', 'AddValues', 'RemoveValues', 'ContainsAny', 'ContainsAll')
